@@ -138,23 +138,24 @@ Section Model.
     | _, _ => (mkS (secret s) (store s) (ctr s + 2) (log s), RErr ECollision)
     end.
 
-  (* Refresh: the new access token is signed with, and the new record keeps, the OLD ExpiresAt *)
-  Definition refresh (s : sstate) (t : token) (now1 now2 : N) : sstate * res (token * token) :=
+  (* Refresh: the new access token and the new record get a new access window now2 + ttl
+     (ttl = SessionStore.ttl at the time of the call); RefreshExpiresAt is kept *)
+  Definition refresh (s : sstate) (t : token) (ttl now1 now2 : N) : sstate * res (token * token) :=
     match find (store s) t with
     | None => (s, RErr EInvalid)
     | Some r =>
         if r_rexp r <? now1 then
           (mkS (secret s) (remove_opt (remove (store s) (r_tok r)) (r_ref r)) (ctr s) (log s), RErr EExpired)
         else
-          let '(a, m) := mk_access (secret s) (r_user r) (r_role r) now2 (r_exp r) (ctr s) in
+          let '(a, m) := mk_access (secret s) (r_user r) (r_role r) now2 (now2 + ttl) (ctr s) in
           let rt := TOpaque (nonce (ctr s + 1)) in
-          let nr := mkRec a (Some rt) (r_user r) (r_role r) (r_exp r) (r_rexp r) in
+          let nr := mkRec a (Some rt) (r_user r) (r_role r) (now2 + ttl) (r_rexp r) in
           match find (store s) a, find ((a, nr) :: store s) rt with
           | None, None =>
               let st1 := (rt, nr) :: (a, nr) :: store s in
               let st2 := remove_opt (remove st1 (r_tok r)) (r_ref r) in
               (mkS (secret s) st2 (ctr s + 2)
-                   (log s ++ [mkIssue a (Some rt) (r_user r) (r_role r) (r_exp r) (secret s) m]), ROk (a, rt))
+                   (log s ++ [mkIssue a (Some rt) (r_user r) (r_role r) (now2 + ttl) (secret s) m]), ROk (a, rt))
           | _, _ => (mkS (secret s) (store s) (ctr s + 2) (log s), RErr ECollision)
           end
     end.
@@ -183,7 +184,7 @@ Section Model.
   Inductive op :=
   | OCreateSession (user role : bytes) (ttl rttl now : N)
   | OCreateToken (user role : bytes) (ttl now : N)
-  | ORefresh (t : token) (now1 now2 : N)
+  | ORefresh (t : token) (ttl now1 now2 : N)
   | OValidate (t : token) (now1 now2 : N)
   | ORevoke (t : token)
   | OSecret (sec : bytes).        (* SOP_SESSION_SECRET / session_secret changed *)
@@ -192,7 +193,7 @@ Section Model.
     match o with
     | OCreateSession u r ttl rttl now => fst (create_session s u r ttl rttl now)
     | OCreateToken u r ttl now => fst (create_token s u r ttl now)
-    | ORefresh t n1 n2 => fst (refresh s t n1 n2)
+    | ORefresh t ttl n1 n2 => fst (refresh s t ttl n1 n2)
     | OValidate t n1 n2 => fst (validate s t n1 n2)
     | ORevoke t => revoke s t
     | OSecret sec => mkS sec (store s) (ctr s) (log s)
